@@ -1098,6 +1098,83 @@ pub fn walks(out: &mut dyn Write, rng: &mut Rng, stride: u64) {
 
 /// exhaustive small-material family: both kings plus ONE extra man of any kind and colour, either side to move
 /// (every placement the builder accepts); sharded by the white king's square
+/// sparse random positions: both kings plus 1..6 random men, kings and rooks often at home WITH the rights, pawns biased towards the
+/// ranks where promotions, double steps and en-passant captures happen, an en-passant marker whenever one is possible; every legal
+/// move is played and the successor examined too.  Playouts from the opening never reach most of these configurations.
+pub fn sparse_family(out: &mut dyn Write, rng: &mut Rng, n: usize) {
+    let mut dist = Dist::default();
+    let mut made = 0usize;
+    let mut tries = 0usize;
+    while made < n && tries < n * 40 {
+        tries += 1;
+        let mut cells: [Option<char>; 64] = [None; 64];
+        let mut rights = String::new();
+        // white home set-up
+        if rng.chance(1, 2) {
+            cells[4] = Some('K');
+            if rng.chance(2, 3) { cells[7] = Some('R'); if rng.chance(4, 5) { rights.push('K'); } }
+            if rng.chance(2, 3) { cells[0] = Some('R'); if rng.chance(4, 5) { rights.push('Q'); } }
+        } else {
+            cells[rng.below(64) as usize] = Some('K');
+        }
+        if rng.chance(1, 2) && cells[60].is_none() {
+            cells[60] = Some('k');
+            if rng.chance(2, 3) && cells[63].is_none() { cells[63] = Some('r'); if rng.chance(4, 5) { rights.push('k'); } }
+            if rng.chance(2, 3) && cells[56].is_none() { cells[56] = Some('r'); if rng.chance(4, 5) { rights.push('q'); } }
+        } else {
+            let mut placed = false;
+            for _ in 0..20 {
+                let s = rng.below(64) as usize;
+                if cells[s].is_none() { cells[s] = Some('k'); placed = true; break; }
+            }
+            if !placed { continue; }
+        }
+        let men = 1 + rng.below(6);
+        for _ in 0..men {
+            let c = *rng.pick(b"PPPpppNnBbRrQq");
+            let s = if c == b'P' || c == b'p' {
+                let r = *rng.pick(&[1u64, 1, 6, 6, 3, 4, 2, 5]);
+                (r * 8 + rng.below(8)) as usize
+            } else {
+                rng.below(64) as usize
+            };
+            if cells[s].is_none() { cells[s] = Some(c as char); }
+        }
+        let turn = if rng.chance(1, 2) { 'w' } else { 'b' };
+        // en-passant marker: a pawn of the side NOT to move on its double-step rank with the two squares behind it empty
+        let mut ep = "-".to_string();
+        let (prank, behind1, behind2, pch, file_rank) = if turn == 'w' { (4usize, 5usize, 6usize, 'p', '6') } else { (3, 2, 1, 'P', '3') };
+        let mut cands: Vec<usize> = Vec::new();
+        for f in 0..8 {
+            if cells[prank * 8 + f] == Some(pch) && cells[behind1 * 8 + f].is_none() && cells[behind2 * 8 + f].is_none() { cands.push(f); }
+        }
+        if !cands.is_empty() && rng.chance(3, 4) {
+            let f = *rng.pick(&cands);
+            ep = format!("{}{}", (b'a' + f as u8) as char, file_rank);
+        }
+        let mut t = String::new();
+        for r in (0..8).rev() {
+            let mut missing = 0;
+            for f in 0..8 {
+                match cells[r * 8 + f] {
+                    Some(c) => { if missing > 0 { t.push_str(&missing.to_string()); missing = 0; } t.push(c); }
+                    None => missing += 1,
+                }
+            }
+            if missing > 0 { t.push_str(&missing.to_string()); }
+            if r != 0 { t.push('/'); }
+        }
+        if rights.is_empty() { rights.push('-'); }
+        let half = *rng.pick(&[0u64, 0, 1, 7, 49, 98, 99, 100]);
+        let fen = format!("{t} {turn} {rights} {ep} {half} {}", 1 + rng.below(90));
+        if let Ok(b) = fen.parse::<Board>() {
+            made += 1;
+            emit_with_successors(out, &mut dist, &b);
+        }
+    }
+    dist.print(out);
+}
+
 pub fn small_family(out: &mut dyn Write, with_moves: bool) {
     let shard: u64 = std::env::var("VERIF_SHARD").ok().and_then(|s| s.parse().ok()).unwrap_or(0);
     let shards: u64 = std::env::var("VERIF_SHARDS").ok().and_then(|s| s.parse().ok()).unwrap_or(1).max(1);
